@@ -1,6 +1,7 @@
 package checks
 
 import (
+	"sync/atomic"
 	"context"
 	"fmt"
 	"runtime"
@@ -104,7 +105,7 @@ type vnode struct {
 	book  *accountant.AccountingBook
 	g     *gossip.VerifGossiper
 	hip   *cache.Hippocampus
-	flash *cache.Flashback
+	flash *forgetfulFlash
 	pipe  *pipe.Juggler
 	evil  bool // adversarial relay: no real gossiper, the harness plays it
 }
@@ -132,6 +133,21 @@ func (n *vnet) post(m *vmsg) {
 	n.mu.Unlock()
 }
 
+// forgetfulFlash is the node's real recent-hash memory with a switch that stands for "the suppression window has
+// elapsed" (really 10-30 s of wall clock): while it is on, every hash looks new to the gossip layer.
+type forgetfulFlash struct {
+	*cache.Flashback
+	forget atomic.Bool
+}
+
+func (f *forgetfulFlash) HasHash(h []byte) (bool, error) {
+	ok, err := f.Flashback.HasHash(h)
+	if f.forget.Load() {
+		return false, err
+	}
+	return ok, err
+}
+
 func newVnet(size int, seed string) (*vnet, error) {
 	w, err := sim.NewWorld(sim.Config{Nodes: size, Users: 3, GenesisC: 1_000_000, Seed: seed})
 	if err != nil {
@@ -145,10 +161,11 @@ func newVnet(size int, seed string) (*vnet, error) {
 		if err != nil {
 			return n, err
 		}
-		vn.flash, err = cache.NewFlash()
+		fl, err := cache.NewFlash()
 		if err != nil {
 			return n, err
 		}
+		vn.flash = &forgetfulFlash{Flashback: fl}
 		vn.pipe = pipe.New(64, 64)
 		vn.g = gossip.VerifNewGossiper(fmt.Sprintf("node%d", i), sim.NewLogger(), time.Second, vn.key, wallet.NewVerifier(),
 			&countingBook{AccountingBook: vn.book, net: n, node: i}, vn.hip, vn.flash, vn.pipe, nil)
